@@ -554,6 +554,12 @@ def _ovf_cases(max_files):
                                     for coll in (1, 2):
                                         yield {"kind": "ovf", "files": nf, "disks": list(refs), "items": [list(i) for i in items],
                                                "ns": ns, "ids": ids, "collection": coll}
+                                if ni >= 2 and j % 21 == 0:
+                                    # the items spread over two hardware sections of the one virtual system (alternative
+                                    # configurations): split after the first / before the last item
+                                    for split in (1, ni - 1):
+                                        yield {"kind": "ovf", "files": nf, "disks": list(refs), "items": [list(i) for i in items],
+                                               "ns": ns, "ids": ids, "sections": split}
                                 if ni <= 1 or j % 21 == 0:
                                     for empty in ("disk-first", "disk-last", "drive-first", "drive-last", "both"):
                                         yield {"kind": "ovf", "files": nf, "disks": list(refs), "items": [list(i) for i in items],
@@ -604,6 +610,8 @@ def _do_ovf(case):
         path = f"/disk/{did(tidx)}" if tk == "disk" else f"/file/{fid(tidx)}"
         if form in (0, 1):
             path = "ovf:" + path
+        if case.get("sections") and n == case["sections"]:
+            x += [f"  </{e}VirtualHardwareSection>", f'  <{e}VirtualHardwareSection {a}id="alt">', f"   <{e}Info>alternative</{e}Info>"]
         x += [f"   <{e}Item>", f"    <{r}ElementName>dev{n}</{r}ElementName>", f"    <{r}HostResource>{path}</{r}HostResource>",
               f"    <{r}InstanceID>{n + 3}</{r}InstanceID>", f"    <{r}ResourceType>{rt}</{r}ResourceType>", f"   </{e}Item>"]
         if rt == 17:
